@@ -657,8 +657,7 @@ theorem C04_refines_create_loop (d d' : Db) (cid : Nat) (cat : Option Str) (name
     end — the given values, the unknown value for the items the packet omits (`packetFor`, which is the packet of
     `Loop.specAddPacket`: `C04_add_packet_is_spec_packet`) — and every other loop of the CIF, blocks and frames are what they
     were.  Hypothesis beyond `Inv`: `RowsBelow` (stored row numbers ≤ last_row_num; not yet part of `Inv`).
-    At the level of `abs` this is the documented behaviour even for packets that omit items: F30 (nothing is STORED for them)
-    only shows when the items that did get a value are removed later (`C04_cex_F30`). -/
+    Since fix e266ec6 the omitted items are also STORED as unknown (`C04_add_packet_total`; before: `C04_cex_F30_pinned`). -/
 theorem C04_refines_add_packet (d d' : Db) (l : LH) (pkt : List (Str × V)) (h : Inv d) (hrb : RowsBelow d l.cid l.loopNum)
     (hne : pkt ≠ []) (he : addPacketBody l pkt d = .ok (d', ())) :
     (∀ cid', absLoops d' cid' = (d.loops.filter (fun x => x.cid == cid')).map (fun x =>
@@ -667,6 +666,13 @@ theorem C04_refines_add_packet (d d' : Db) (l : LH) (pkt : List (Str × V)) (h :
         else absLoop d x)) ∧
     d'.frames = d.frames ∧ d'.blocks = d.blocks :=
   addPacket_refines d d' l pkt h hrb hne he
+
+/-- since fix e266ec6 (F30): the packet cif_loop_add_packet adds is TOTAL over the loop's items — every item has a STORED value in the
+    new row (the given one or the explicit unknown value), and that row is the loop's last_row_num -/
+theorem C04_add_packet_total (d d' : Db) (l : LH) (pkt : List (Str × V)) (he : addPacketBody l pkt d = .ok (d', ())) :
+    ∃ row, d'.lastRowNum l.cid l.loopNum = some row ∧ 0 < row ∧
+      ∀ i ∈ d'.loopItems l.cid l.loopNum, d'.hasValue l.cid i.name row = true :=
+  addPacket_total d d' l pkt he
 
 theorem C04_add_packet_is_spec_packet (norm : Str → Str) (d : Db) (x : LoopRow) (pkt : List (Str × V)) (hn : ItemsNormOK norm d) :
     packetFor d x.cid x.loopNum pkt =
@@ -701,7 +707,7 @@ theorem C04_refines_set_value (d : Db) (x : LoopRow) (i : ItemRow) (v : V) (h : 
 
 /-- C04_refines, loop level, proved for remove_item when other items stay in the loop (REMOVE_ITEM_SQL): provided every packet of
     the loop stores a value for every item (`hcomplete` — what the documentation promises; F30 breaks it and then packets vanish
-    here: `C04_cex_F30`), the loop keeps its category, loses the item's name and column and keeps every packet (same rows, same
+    here: `C04_cex_F30_pinned`), the loop keeps its category, loses the item's name and column and keeps every packet (same rows, same
     order, same other cells); every other loop of the CIF is what it was; loop, block and frame tables untouched. -/
 theorem C04_refines_remove_item (d : Db) (x : LoopRow) (i j0 : ItemRow) (h : Inv d) (hx : x ∈ d.loops)
     (hi : i ∈ d.loopItems x.cid x.loopNum) (hj0 : j0 ∈ d.loopItems x.cid x.loopNum) (hne0 : j0.name ≠ i.name)
@@ -866,7 +872,7 @@ def C04_refines_full : Prop :=
     ∃ row' ∈ d'.loops, row'.cid = l.cid ∧ row'.loopNum = l.loopNum ∧
       ((absLoop d row).specAddPacket norm pkt).toOption.map (·.packets.length) = some (absLoop d' row').packets.length
 
--- the two open findings, as counterexamples to the documented model (kernel-checked on the model of the CURRENT code)
+-- the two findings of this group (both repaired in /repo), as statements about the PINNED variants of the model
 private def nm (k : Str) : Name := { key := k, orig := k, valid := true }
 private def hist30 : List Op := [.cifNew, .mkBlock 0 (some (nm (a!"b"))), .mkLoop 0 (some (a!"cat")) [nm (a!"_a"), nm (a!"_b")],
   .addPkt 0 [(a!"_a", .na)], .rmItem 0 (some (nm (a!"_a")))]
@@ -876,10 +882,16 @@ private def countsAfter (ops : List Op) : List (Nat × Nat × Nat) :=
     | some s => (s.db.loops.length, s.db.items.length, s.db.values.length)
     | none => (0, 0, 0))
 
-/-- F30: create_loop(_a,_b); add_packet({_a}); remove_item(_a) — the model (= the C) ends with a loop `_b` WITHOUT packets, the
-    documented model keeps the packet (`_b` = unknown) -/
-theorem C04_cex_F30 :
-    countsAfter hist30 = [(1, 1, 0)] ∧
+/-- F30 (fixed by e266ec6), about the PINNED variant `addPacketBodyPinned`: create_loop(_a,_b); add_packet({_a}); remove_item(_a)
+    ended with a loop `_b` WITHOUT packets (no stored value); the documented model keeps the packet (`_b` = unknown) — and so does
+    the current model: one stored value is left (the unknown value FILL_PACKET_SQL recorded for `_b`) -/
+theorem C04_cex_F30_pinned :
+    (match (run {} [.cifNew, .mkBlock 0 (some (nm (a!"b"))), .mkLoop 0 (some (a!"cat")) [nm (a!"_a"), nm (a!"_b")]]).1.cifs with
+     | [some s] => (match addPacketBodyPinned { cid := 1, loopNum := 0, category := some (a!"cat") } [(a!"_a", .na)] s.db with
+        | .ok (d, _) => ((d.removeItem 1 (a!"_a")).values.length, (d.removeItem 1 (a!"_a")).items.length)
+        | .error _ => (99, 99))
+     | _ => (99, 99)) = (0, 1) ∧
+    countsAfter hist30 = [(1, 1, 1)] ∧
     (((({ category := some (a!"cat"), names := [a!"_a", a!"_b"], packets := [] } : Loop).specAddPacket id [(a!"_a", .na)]).toOption.bind
         (fun l => l.specRemoveItem id (a!"_a"))).map (fun l => l.packets.length)) = some 1 := by decide
 
